@@ -382,7 +382,7 @@ func (c *CEnv) object(o types.Object) CVal {
 		// package-level variable
 		if g := e.P.globalFor(o); g != nil {
 			p := &Place{kind: "global", comp: globalCompName(g), typ: o.Type()}
-			return CVal{S: e.load(c.st, p), T: o.Type(), Place: p}
+			return c.wf(CVal{S: e.load(c.st, p), T: o.Type(), Place: p}, c.st)
 		}
 	}
 	return c.fail("unsupported object %s", o)
@@ -427,7 +427,7 @@ func (c *CEnv) selector(x *ast.SelectorExpr) CVal {
 					ref = cur.S
 				}
 				p := e.fieldPlace(ref, curT, i)
-				cur = CVal{S: e.load(c.st, p), T: fld.Type(), Place: p}
+				cur = c.wf(CVal{S: e.load(c.st, p), T: fld.Type(), Place: p}, c.st)
 			} else {
 				si := e.structInfoOf(curT)
 				np := (*Place)(nil)
@@ -460,6 +460,18 @@ func (c *CEnv) selector(x *ast.SelectorExpr) CVal {
 		return CVal{S: fmt.Sprintf("(%s %s)", si.fields[path[0]], v.S), T: st.Field(path[0]).Type(), Place: np}
 	}
 	return c.fail("selector %s on %s", x.Sel.Name, t)
+}
+
+// wf records that a value read from the heap is well-formed (references found in memory are allocated,
+// integers lie in their type's range). Sound for every state the encoder builds; skipped under binders.
+func (c *CEnv) wf(v CVal, st *State) CVal {
+	if v.T == nil || strings.Contains(v.S, "|q.") {
+		return v
+	}
+	if fact := c.e.loadFact(v.S, v.T, st); fact != "true" {
+		c.e.emit(fmt.Sprintf("(assert %s)", fact))
+	}
+	return v
 }
 
 func isPointerTo(t types.Type) bool {
@@ -504,8 +516,8 @@ func (c *CEnv) index(x *ast.IndexExpr) CVal {
 	case *types.Slice:
 		i := c.toIdx(c.ev(x.Index))
 		comp := elemCompName(e, u.Elem())
-		p := &Place{kind: "elem", comp: comp, ref: "(s_arr " + v.S + ")", idx: e.idxAdd("(s_off "+v.S+")", i.S), typ: u.Elem()}
-		return CVal{S: e.load(c.st, p), T: u.Elem(), Place: p}
+		p := &Place{kind: "elem", comp: comp, ref: "(s_arr " + v.S + ")", idx: e.idxAdd("(s_off "+v.S+")", i.S), typ: u.Elem(), off: "(s_off " + v.S + ")", rel: i.S}
+		return c.wf(CVal{S: e.load(c.st, p), T: u.Elem(), Place: p}, c.st)
 	case *types.Array:
 		i := c.toIdx(c.ev(x.Index))
 		var np *Place
